@@ -109,7 +109,23 @@ def fill(claim, na):
           're-stated after charge rewrites. Bijectivity of q_map/_perm over all leg tuples is '
           'combinatorial over data and not decided.',
           'trusts python ast, sa/linform.py; documented effects table in sa/rules/c06.py', 'C06')
-    for pid in ['C01', 'C03', 'C04', 'C07', 'C09', 'C10', 'C11', 'C12',
+    claim('C03', 'ownership (freshness) analysis of every in-place write site: abstract origins '
+          'Fresh / Shallow / Operand with return-origin, deep-write and parameter-write summaries '
+          'computed from the source; must-precede on the CFG for fresh re-bindings',
+          PARTIAL + 'In np_conserved.py, charges.py, sparse.py, truncation.py, krylov_based.py: '
+          'every attribute re-binding on a non-fresh object, subscript/augmented store, mutating '
+          'container call and in-place Array method call in a function that is not in-place has a '
+          'root that is Fresh, or - for shallow copies - touches only what a shallow copy owns '
+          '(legs/_labels lists) or what was re-bound to a fresh value on every path before; '
+          'operands are not passed to workers that write that parameter; no in-place store '
+          'through X.charges / X.slices anywhere in the package; functions with an  flag '
+          'alias self only on the inplace branch; MPS/MPO constructors store copies. '
+          'Observational equality of values is not needed (no write, no change) and not decided; '
+          'tensors reaching an in-place call through containers/callbacks in the algorithms are '
+          'not tracked.',
+          'unknown origins are never flagged (may miss, does not invent); numpy view/copy table '
+          'and accepted output parameters listed in sa/own.py / sa/rules/c03.py', 'C03')
+    for pid in ['C01', 'C04', 'C07', 'C09', 'C10', 'C11', 'C12',
                 'C13', 'C16', 'C19']:
         na(pid, 'static rule planned in DESIGN.md but not built yet (work in progress); not '
            'claimed until its check exists')
